@@ -38,7 +38,7 @@ ASSUMPTIONS = ["a stale answer for the *same* property is indistinguishable by d
 
 OBJ = {11: "OBJECT_KNXNETIP_PARAMETER", 0: "OBJECT_DEVICE", 8: "OBJECT_CEMI_SERVER"}
 ANSWERS = ["ok", "ok", "ok", "late", "twice", "other_property", "other_object", "other_instance", "other_type", "ind_then_ok",
-           "none", "error", "wrong_then_ok"]
+           "none", "error", "wrong_then_ok", "wrong+ok_at_once"]
 ACKS = ["ok", "ok", "ok", "none", "dup", "late", "error"]
 
 
@@ -69,7 +69,13 @@ def gen(seed: int, tier: str) -> dict[str, Any]:
         ops.append({"t": round(rng.uniform(0.0, 10.0), 6), "op": "indication"})
     # how the server treats the client's DisconnectRequest: answers, stays silent (the client waits 1 s), answers late
     disc = rng.choice(["ok", "ok", "drop", "late"])
-    return {"seed": seed, "tier": "S", "config": {"transport": transport, "batch": 1, "route_back": rng.random() < 0.2,
+    policy = None
+    if transport == "udp" and not clean and rng.random() < 0.25:
+        # datagrams get lost in both directions: a request the server never saw must be repeated (same counter) or the
+        # connection given up - never followed by a new request under the next counter
+        policy = {"drop": rng.choice([0.1, 0.25])}
+    return {"seed": seed, "tier": "P", "fault_policy": policy,
+            "config": {"transport": transport, "batch": 1 if rng.random() < 0.75 else 3, "route_back": rng.random() < 0.2,
                                                   "disc": disc, "ind_cb": rng.random() < 0.6,
                                                   "ind_same": rng.random() < 0.6},
             "reqs": reqs, "ops": ops}
@@ -164,6 +170,14 @@ def run(plan: dict[str, Any]) -> dict[str, Any]:
             return
         if ans in ("other_property", "other_object", "other_instance", "other_type"):
             fr, key, v = wrong(ans)
+            srv_send(ch, fr, lat, key=key, value=v)
+            return
+        if ans == "wrong+ok_at_once":
+            # a frame that is not the answer and the answer itself leave the server back to back (one TCP segment / two
+            # datagrams delivered in the same instant): the first must be discarded, the second returned
+            fr, key, v = wrong(rng.choice(["other_property", "other_instance", "other_type"]))
+            srv_send(ch, fr, lat, key=key, value=v)
+            fr, key, v = good()
             srv_send(ch, fr, lat, key=key, value=v)
             return
         if ans == "wrong_then_ok":
@@ -300,6 +314,22 @@ def run(plan: dict[str, Any]) -> dict[str, Any]:
         if out.startswith("other:"):
             R.violate("C32.prompt-failure", out, f"request {rec['i']} failed with a non-communication error")
             continue
+        same_key = sum(1 for q in reqs if (q["kind"] == "read", q["obj"], q["inst"], q["pid"]) == key)
+        if out != "ok" and tr != "udp" and same_key == 1 and not any(o["op"] != "indication" for o in plan["ops"]):
+            # nothing can have gone wrong on a stream transport that stays open: if the server sent an answer of the matching
+            # type for the same object, instance and property while the request was outstanding (well before it gave up), the
+            # request has to return it - whatever else the server sent around it
+            t_of = {e[0]: e[1] for e in R.events if e[3] == "srv_answer"}
+            # ... "outstanding" = after the server received this very request (an equal frame that arrived while the request
+            # still waited for its turn is a stale answer and rightly discarded)
+            n_recv = next((q["n"] for q in seen_reqs if q["key"] == key and q["n"] > rec["n_call"]), None)
+            mine = [a for a in answers_sent if n_recv is not None and a["key"] == key and n_recv < a["n"] < rec["n_ret"]
+                    and t_of.get(a["n"], rec["t_ret"]) < rec["t_ret"] - 0.5 and a["value"] != b"ERR"]
+            if mine:
+                R.violate("C32.own-answer-only", "matching-answer-not-returned",
+                          f"request {rec['i']} {key} failed with {out} although the server sent a matching answer "
+                          f"{rec['t_ret'] - t_of.get(mine[0]['n'], 0):.3f}s before")
+                continue
         if out == "ok":
             # the returned value stems from a delivered answer of matching type/object/instance/property
             match = [a for a in answers_sent if a["key"] == key and a["value"] == rec["value"] and a["n"] < rec["n_ret"]]
@@ -379,6 +409,33 @@ def run(plan: dict[str, Any]) -> dict[str, Any]:
                 R.violate("C32.counter", "counter-skipped", f"counters of successive requests: {counters}")
         if counters and counters[0] != 0:
             R.violate("C32.counter", "first-counter!=0", f"{counters}")
+        # the counter advances once per *accepted* request (ground truth at the server): a new request under counter a+1 may go
+        # out only if the request under counter a was accepted by the server - a request the server never saw has to be
+        # repeated under the same counter, or the connection given up
+        firsts: list[tuple[int, int, bytes]] = []
+        for (n_, t_, c_, cemi_) in outs:
+            if not firsts or firsts[-1][1] != c_ or firsts[-1][2] != cemi_:
+                firsts.append((n_, c_, cemi_))
+        accepted_keys = {(q, bytes(c)) for (cid_, q, c) in gw.accepted}
+        for (n1, c1, cemi1), (n2, c2, cemi2) in zip(firsts, firsts[1:]):
+            if c2 != (c1 + 1) & 0xFF:
+                continue
+            if (c1, bytes(cemi1)) not in accepted_keys:
+                # what did the client receive in between?  An answer frame (of an earlier, timed-out request) inside the
+                # acknowledgement wait is what the documented "acknowledgement lost, answer arrived" fallback takes for the
+                # answer to *this* request - a known finding; an advance with nothing but indications (or nothing at all)
+                # in that window is not
+                stale_con = False
+                for e in R.events:
+                    if n1 < e[0] < n2 and e[3] == "udp_in" and f">{client_ip}:" in str(e[4]):
+                        sp_ = W.split(bytes.fromhex(e[5]))
+                        if sp_ and sp_[0] == W.DEVCFG_REQ and len(sp_[1]) >= 5 and sp_[1][4] != 0xF7:
+                            stale_con = True
+                            break
+                R.violate("C32.counter", "counter-advanced-without-accepted-request" + (":stale-answer-in-ack-window" if stale_con else ""),
+                          f"the request under counter {c1} ({bytes(cemi1).hex()}) never reached the server, yet a new request went "
+                          f"out under counter {c2}")
+                break
         for x in gw.reused_counter:
             R.violate("C32.counter", "new-request-under-the-counter-of-an-accepted-one",
                       f"the server accepted a request with counter {x['seq']} and then received a different request "
